@@ -234,30 +234,25 @@ func c16Structure(c *Ctx) {
 			if !isIdx {
 				continue
 			}
-			mask, isAnd := ix.Index.(*ssa.BinOp)
-			if !isAnd || mask.Op != token.AND {
-				continue
-			}
-			if m, ok := intConst(mask.Y); !ok || m != 15 {
+			kind, byteVal := nibbleOf(ix.Index)
+			if kind == "" {
 				continue
 			}
 			// base index: phi or phi+1
 			if p, ok := x.idx.(*ssa.Phi); ok {
-				if sh, ok := mask.X.(*ssa.BinOp); ok && sh.Op == token.SHR {
-					if k, ok := intConst(sh.Y); ok && k == 4 {
-						okHi = true
-						idxPhi = p
-						if ld, ok := sh.X.(*ssa.UnOp); ok {
-							if ia, ok := ld.X.(*ssa.IndexAddr); ok && isForwardRangeIndex(ia.Index) {
-								serial = ia.X
-							}
+				if kind == "hi" {
+					okHi = true
+					idxPhi = p
+					if ld, ok := strip(byteVal).(*ssa.UnOp); ok {
+						if ia, ok := ld.X.(*ssa.IndexAddr); ok && isForwardRangeIndex(ia.Index) {
+							serial = ia.X
 						}
 					}
 				}
 			} else if b, ok := x.idx.(*ssa.BinOp); ok && b.Op == token.ADD {
 				if one, ok := intConst(b.Y); ok && one == 1 {
-					if _, isPhi := b.X.(*ssa.Phi); isPhi {
-						if _, isLd := mask.X.(*ssa.UnOp); isLd {
+					if _, isPhi := b.X.(*ssa.Phi); isPhi && kind == "lo" {
+						if _, isLd := strip(byteVal).(*ssa.UnOp); isLd {
 							okLo = true
 						}
 					}
